@@ -26,6 +26,7 @@ import (
 	"strconv"
 	"strings"
 	"sync"
+	"time"
 
 	"github.com/open-policy-agent/opa/v1/rego"
 
@@ -1195,20 +1196,27 @@ func main() {
 	if tier == "thorough" {
 		nHelper, nMods, maxT, nGenWs, maxAggT = 3000, 40, 12, 12, 10
 	}
+	t0 := time.Now()
+	lap := func(what string) {
+		fmt.Fprintf(os.Stderr, "c06: %s done at %.1fs\n", what, time.Since(t0).Seconds())
+	}
 	corpusHelper(o, out, wd)
 	helperCases(o, r, out, nHelper)
+	lap("helpers")
 
 	var mods []*module
 	for i := 0; i < nMods; i++ {
 		mods = append(mods, genModule(r, i))
 	}
 	e2ePerFile(e, r, out, mods, maxT)
+	lap("per-file e2e")
 
 	wss := fixedWorkspaces()
 	for i := 0; i < nGenWs; i++ {
 		wss = append(wss, genWorkspace(r, i))
 	}
 	e2eAggregate(e, r, out, wss, maxAggT)
+	lap("aggregate e2e")
 }
 
 // corpusHelper: fixed regression inputs (corpus/C06/*.json are copied into <workdir>/corpus by the driver)
